@@ -253,6 +253,35 @@ def make_numpy():
         return T.unique(x, *a, **k)
     m.unique = np_unique
     m.bincount = T.bincount
+    m.flatnonzero = lambda x: (x if isinstance(x, Arr) else NDArray(_obj(x))).reshape(-1).nonzero()[0]
+
+    class _AddUfunc:
+        """numpy.add with its unbuffered in-place form add.at(a, idx, b): repeated indices accumulate"""
+        def __call__(self, a, b):
+            return a + b
+
+        def at(self, a, idx, b=None):
+            ia = list((idx.a if isinstance(idx, Arr) else _obj(idx)).flat)
+            ba = list((b.a if isinstance(b, Arr) else _obj(b)).flat) if isinstance(b, (Arr, list, tuple, np.ndarray)) else [b] * len(ia)
+            for t, v in zip(ia, ba):
+                a[t] = a[t] + v
+    m.add = _AddUfunc()
+
+    def np_split(x, sections, axis=0):
+        x = x if isinstance(x, Arr) else NDArray(_obj(x))
+        n = x.a.shape[axis]
+        if isinstance(sections, int):
+            if n % sections:
+                raise ValueError("array split does not result in an equal division")
+            cuts = [n // sections * k for k in range(1, sections)]
+        else:
+            cuts = [int(v) for v in (sections.a.flat if isinstance(sections, Arr) else sections)]
+        out, at = [], 0
+        for c in cuts + [n]:
+            out.append(x[(slice(None),) * axis + (slice(at, builtins.max(at, c)),)])
+            at = builtins.max(at, c)
+        return out
+    m.split = np_split
     _nd = lambda x: x if isinstance(x, Arr) else NDArray(_obj(x))
     m.sum = lambda x, axis=None, **k: _nd(x).sum(axis=axis)
     m.cumsum = lambda x, axis=None, dtype=None: _nd(x).cumsum(axis=axis)
@@ -479,6 +508,20 @@ def make_torch():
                 r.a[c] = (core.Int if isint else core.Real)("uninit!%d" % k_)
         return r
     m.empty = t_empty
+    m.contiguous_format = "contiguous_format"
+    m.preserve_format = "preserve_format"
+    m.channels_last = "channels_last"
+    m.empty_like = lambda x, dtype=None, **k: t_empty(*x.a.shape, dtype=dtype or x.dtype)
+
+    def eye(n, m_=None, dtype=None, device=None, **k):
+        m_ = n if m_ is None else m_
+        a = np.empty((int(n), int(m_)), dtype=object)
+        for c in np.ndindex(*a.shape):
+            a[c] = 1 if c[0] == c[1] else 0
+        return Tensor(a, dtype=_dtype_name(dtype) or "float32")
+    m.eye = eye
+    m.unbind = lambda x, dim=0: x.unbind(dim)
+    m.split = lambda x, size, dim=0: x.split(size, dim)
     m.zeros_like = lambda x, dtype=None, **k: T.full_like(x, 0, dtype)
     m.ones_like = lambda x, dtype=None, **k: T.full_like(x, 1, dtype)
     m.arange = T.arange
